@@ -7,8 +7,8 @@ import (
 	"path/filepath"
 	"sort"
 	"strings"
-	"time"
 	"testing"
+	"time"
 
 	"pgregory.net/rapid"
 
